@@ -14,7 +14,7 @@ from xmlschema import XMLSchema10, XMLSchema11
 from xmlschema.exceptions import XMLSchemaValueError
 
 from engine.known import open_regions
-from engine.sym import mkset
+from engine.sym import mkset, pick
 
 ID = "C16"
 
@@ -51,7 +51,7 @@ def _decode(kw):
         if k in ("ploc", "qa", "qb"):
             out[k] = v
         else:
-            out[k] = POOL[v]
+            out[k] = POOL[pick(v, len(POOL))]
     return out
 
 
@@ -101,7 +101,7 @@ def _operand(idx, kw):
         # only ever compared for equality, so this loses no case and avoids brace constraints on a free string
         pool = [kw["pns"], CFG["t1"], CFG["t2"], '', 'zz'] + _members("a", CFG["k1"] if CFG["sh1"] in ("set", "not") else 0, kw) \
             + _members("b", CFG["k2"] if CFG["sh2"] in ("set", "not") else 0, kw)
-        nq = [_qn(pool[kw["qa" if idx == 1 else "qb"]], 'x')]
+        nq = [_qn(pool[pick(kw["qa" if idx == 1 else "qb"], len(pool))], 'x')]
     return sh, mem, t, nq
 
 
